@@ -34,7 +34,7 @@ func init() {
 }
 
 func e2eTypes(c *core.Ctx, prop string, types []byte) {
-	nh := c.N(64, 600)
+	nh := c.N(160, 600)
 	for idx := 0; idx < nh; idx++ {
 		if !c.Mine(idx) {
 			continue
